@@ -57,4 +57,13 @@ def run(c):
     if c.tier == 'thorough':
         for fl in ('c32', 'dxor', 'c64'):
             c.tv(p, fl, 'sivisap', max_cost=30.0)
+    else:
+        # the 32-bit bit-sliced back end has its own re-keying bit absorption and byte helpers:
+        # a few packets and one key history per scheme there
+        q = Plan(); seen = {}
+        for lines, cost, tag in p.cases:
+            key = (lines[1].split()[0], [t for t in lines[1].split() if t.startswith('scheme=')][0])
+            if seen.get(key, 0) < (3 if 'siv' in key[1] or key[1] == 'scheme=isap128a' else 1):
+                seen[key] = seen.get(key, 0) + 1; q.cases.append((lines, cost, tag))
+        c.tv(q, 'c32', 'sivisap', max_cost=12.0)
     c.cov['rule'] = 'case = (scheme, |AD| class, |M| class) x 3 entry points; key-object histories of 3..6 operations over up to 3 objects; distinct = those tuples'
